@@ -308,11 +308,12 @@ void cshift(Rng& rng)
         T x = mk_any<T>(a);
         if constexpr (!Bare || (K >= 0 && D + K <= 120)) {
             { shead<R, O, D, E, Bare>("shl", "const", a, K); VH_RUN(x << constant<K>{}, print_sn) }
-            { shead<R, O, D, E, Bare>("shl", "aconst", a, K); VH_RUN(([&] { T y = x; y <<= constant<K>{}; return y; }()), print_sn) }
+            // the conversion back widens by |K| digits first: keep within the built-in storage the model covers
+            if constexpr (D + (K < 0 ? -K : K) <= 120) { shead<R, O, D, E, Bare>("shl", "aconst", a, K); VH_RUN(([&] { T y = x; y <<= constant<K>{}; return y; }()), print_sn) }
         }
         if constexpr (!Bare || (K >= 0 && K <= D)) {
             { shead<R, O, D, E, Bare>("shr", "const", a, K); VH_RUN(x >> constant<K>{}, print_sn) }
-            { shead<R, O, D, E, Bare>("shr", "aconst", a, K); VH_RUN(([&] { T y = x; y >>= constant<K>{}; return y; }()), print_sn) }
+            if constexpr (D + (K < 0 ? -K : K) <= 120) { shead<R, O, D, E, Bare>("shr", "aconst", a, K); VH_RUN(([&] { T y = x; y >>= constant<K>{}; return y; }()), print_sn) }
         }
     }
 }
